@@ -42,6 +42,8 @@ func propC09(c *Ctx) {
 	// the piece that is included is the file as it is on disk: named by its path, its bytes unchanged (the line of an
 	// error in the piece is a line of that file)
 	c.ruleC14NameIsPath()
+	// pushing a file onto the include stack must not fail for reasons that have nothing to do with the include graph
+	c.ruleWriteLengthCheck("C09-WRITE-LENGTH-CHECK")
 }
 
 func (c *Ctx) ruleNoWriteAtSwitch() {
@@ -773,6 +775,39 @@ func (c *Ctx) ruleCollectBeforeUse() {
 			})
 		}
 	}
+	// ... and as a membership test: `if ... && !X.Has(name) { return <error> }`
+	for i, ph := range phases {
+		for _, f := range c.reachableAcrossLib(ph) {
+			pk := f.Pkg
+			if strings.HasSuffix(pk.Fset.Position(f.Decl.Pos()).Filename, "_gen.go") {
+				continue
+			}
+			ast.Inspect(f.Decl.Body, func(nd ast.Node) bool {
+				ifs, ok := nd.(*ast.IfStmt)
+				if !ok || !returnsNonNilError(pk, ifs.Body.List) {
+					return true
+				}
+				for _, a := range impliedAtoms(ifs.Cond, true) {
+					call, isCall := ast.Unparen(a.e).(*ast.CallExpr)
+					if !isCall || a.holds {
+						continue
+					}
+					cal := callee(pk, call)
+					sel, isSel := ast.Unparen(call.Fun).(*ast.SelectorExpr)
+					if cal == nil || !isSel || (cal.Name() != "Has" && cal.Name() != "Contains" && cal.Name() != "Exists") {
+						continue
+					}
+					// only the cross-block name spaces: a membership test on a collection that the directive's own parent
+					// has filled (the interaction of the enclosing method, the enclosing SERVER) follows the tree, not
+					// the order of independent blocks
+					if sp := c.nameSpaceOf(pk, sel.X); sp != "" && !strings.HasPrefix(sp, "field ") {
+						bySpace[sp] = append(bySpace[sp], acc{i, nsAccess{f.Name(), ifs.Pos(), "resolve"}})
+					}
+				}
+				return true
+			})
+		}
+	}
 	var spaces []string
 	for sp := range bySpace {
 		spaces = append(spaces, sp)
@@ -1037,6 +1072,9 @@ func (c *Ctx) ruleStatefulInBuild() {
 			}
 			if !carries {
 				return true
+			}
+			if freshRegexReceiver(f, call) {
+				return true // the sample is drawn from a scratch schema made here: no shared generator advances
 			}
 			n++
 			key := fmt.Sprintf("%s | %s", f.Name(), exprString(call.Fun))
